@@ -165,6 +165,7 @@ class Normalise(ast.NodeTransformer):
           likewise `!=`, `not in`, `is not`, `>=`, `<=` tests of two-armed ifs become `==`, `in`, `is`, `<`, `>` with the arms swapped
       N5  tmp = E; return tmp     ->  return E            (every occurrence of tmp in the function is such an assign-then-return pair)
       N6  if a: (if b: X)         ->  if a and b: X       (neither if has an else; the inner if is the only statement of the outer one)
+      N7  x: T = v                ->  x = v               (annotated assignment with a value)
     Positions are kept (copy_location), nothing is evaluated."""
 
     def visit_Assign(self, n):
@@ -172,6 +173,14 @@ class Normalise(ast.NodeTransformer):
         if len(n.targets) == 1 and isinstance(n.targets[0], (ast.Name, ast.Attribute)) and isinstance(n.value, ast.BinOp) and isinstance(n.value.op, (ast.Add, ast.Sub, ast.Mult)) \
                 and ast.dump(n.value.left) == ast.dump(n.targets[0]).replace("ctx=Store()", "ctx=Load()"):
             return ast.copy_location(ast.AugAssign(target=n.targets[0], op=n.value.op, value=n.value.right), n)
+        return n
+
+    # N7  x: T = v   ->   x = v      (annotated assignments with a value; a bare declaration `x: T` is dropped to `pass`-free nothing)
+    def visit_AnnAssign(self, n):
+        self.generic_visit(n)
+        if n.value is not None and isinstance(n.target, (ast.Name, ast.Attribute, ast.Subscript)):
+            return self.visit_Assign(ast.copy_location(ast.Assign(targets=[n.target], value=n.value), n)) if isinstance(n.target, (ast.Name, ast.Attribute)) \
+                else ast.copy_location(ast.Assign(targets=[n.target], value=n.value), n)
         return n
 
     def visit_UnaryOp(self, n):
@@ -199,6 +208,8 @@ class Normalise(ast.NodeTransformer):
             t, sw = self._positive(n.test)
             if sw:
                 n.test, n.body, n.orelse = t, n.orelse, n.body
+                if getattr(n, "_synthetic_arm", None):
+                    n._synthetic_arm = "body" if n._synthetic_arm == "orelse" else "orelse"  # the arm that N8 created moved with the swap
         # N6  if a: (if b: X)   ->  if a and b: X      (neither has an else; the inner if is the only statement)
         if os.environ.get("SA_N6", "1") != "0" and not n.orelse and len(n.body) == 1 and isinstance(n.body[0], ast.If) and not n.body[0].orelse:
             inner = n.body[0]
@@ -267,6 +278,89 @@ class Normalise(ast.NodeTransformer):
     visit_AsyncFunctionDef = visit_FunctionDef
 
 
+def _terminates(stmts) -> bool:
+    """the statement list cannot complete normally (its last statement is return / raise / continue / break, or an if/else both of whose arms cannot)."""
+    if not stmts:
+        return False
+    last = stmts[-1]
+    if isinstance(last, (ast.Return, ast.Raise, ast.Continue, ast.Break)):
+        return True
+    if isinstance(last, ast.If) and last.orelse:
+        return _terminates(last.body) and _terminates(last.orelse)
+    return False
+
+
+def _guard_arm(stmts) -> bool:
+    """a short straight-line arm that ends in a jump: a few simple statements (logging, clean-up call, building the message) and then return / raise / continue / break."""
+    return bool(stmts) and len(stmts) <= 6 and isinstance(stmts[-1], (ast.Return, ast.Raise, ast.Continue, ast.Break)) and all(isinstance(x, (ast.Expr, ast.Assign, ast.AugAssign)) for x in stmts[:-1])
+
+
+def else_after_jump(tree: ast.AST) -> ast.AST:
+    """N8  if c: A(jumps)\n rest   ->   if c: A(jumps) else: rest     — guard clauses and if/else read the same; applied bottom-up to every statement list."""
+    for node in list(ast.walk(tree)):
+        for field in ("body", "orelse", "finalbody"):
+            b = getattr(node, field, None)
+            if not (isinstance(b, list) and b and isinstance(b[0], ast.stmt)):
+                continue
+            # an explicit if/else one arm of which jumps reads like the guard clause it is equivalent to: the other arm is the continuation
+            for st in b:
+                if isinstance(st, ast.If) and st.orelse and not getattr(st, "_synthetic_arm", None):
+                    gb, ge = _guard_arm(st.body), _guard_arm(st.orelse)
+                    if gb and ge and isinstance(st.body[-1], ast.Raise) != isinstance(st.orelse[-1], ast.Raise):
+                        # both arms are short jumps: the one that raises is the rejection, the other one the continuation
+                        gb, ge = isinstance(st.body[-1], ast.Raise), isinstance(st.orelse[-1], ast.Raise)
+                    if gb and not ge:
+                        st._synthetic_arm = "orelse"  # type: ignore[attr-defined]
+                    elif ge and not gb:
+                        st._synthetic_arm = "body"  # type: ignore[attr-defined]
+            # right-to-left so that the innermost rest is folded first
+            i = len(b) - 2
+            while i >= 0:
+                st = b[i]
+                if isinstance(st, ast.If) and not st.orelse and _terminates(st.body) and i + 1 < len(b):
+                    st.orelse = b[i + 1:]
+                    st._synthetic_arm = "orelse"  # type: ignore[attr-defined]
+                    del b[i + 1:]
+                i -= 1
+    return tree
+
+
+def flat(stmts) -> list:
+    """the statements of a block as written: the rest of a block that N8 moved into the synthetic else of a guard clause is listed after the guard clause again."""
+    out = []
+    for st in stmts:
+        out.append(st)
+        arm = getattr(st, "_synthetic_arm", None) if isinstance(st, ast.If) else None
+        if arm:
+            out += flat(getattr(st, arm))
+    return out
+
+
+def walk_explicit(n: ast.AST):
+    """ast.walk that does not descend into the synthetic arm N8 gave a guard clause (i.e. stays inside the statement as written)."""
+    todo = [n]
+    while todo:
+        x = todo.pop()
+        yield x
+        arm = getattr(x, "_synthetic_arm", None) if isinstance(x, ast.If) else None
+        for f_, v in ast.iter_fields(x):
+            if arm and f_ == arm:
+                continue
+            if isinstance(v, list):
+                todo.extend(c for c in v if isinstance(c, ast.AST))
+            elif isinstance(v, ast.AST):
+                todo.append(v)
+
+
+def logical_parent(n: ast.AST) -> Optional[ast.AST]:
+    """parent of n in the source as written: synthetic else arms (N8) are transparent."""
+    p = getattr(n, "_parent", None)
+    c = n
+    while isinstance(p, ast.If) and getattr(p, "_synthetic_arm", None) and any(c is s_ for s_ in getattr(p, p._synthetic_arm)):
+        c, p = p, getattr(p, "_parent", None)
+    return p
+
+
 class Module:
     def __init__(self, repo: "Repo", relpath: str, text: str):
         self.repo = repo
@@ -274,6 +368,8 @@ class Module:
         self.text = text
         self.sha = hashlib.sha256(text.encode("utf-8")).hexdigest()
         self.tree = ast.parse(text, filename=relpath)
+        if os.environ.get("SA_N8", "1") != "0":
+            self.tree = else_after_jump(self.tree)
         self.tree = Normalise().visit(self.tree)
         ast.fix_missing_locations(self.tree)
         set_parents(self.tree)
